@@ -12,6 +12,10 @@ func gen(stream, tier string, seed uint64) {
 	switch stream {
 	case "acc":
 		genAcc(tier, seed)
+	case "cborenc":
+		genCborEnc(tier, seed)
+	case "cbordec":
+		genCborDec(tier, seed)
 	default:
 		fmt.Fprintln(os.Stderr, "unknown stream", stream)
 		os.Exit(2)
